@@ -256,6 +256,9 @@ def run(P, R, L):
     K.ord21_file_loader_commits_after_open(P, R, L)
     R.clause("ERR-3", "a source that could not be positioned is reported by the merging iterator's seek methods (a scan fails, it does not serve what the source shadows)")
     K.err3_merge_seek_reports(P, R, L)
+    from . import round12
+    R.clause("ERR-6", "a Result consumed only by unwrap / expect comes from a callee confirmed infallible: a failing storage operation is never answered with a panic (neither an error nor an effect; on the compaction thread a dead worker)")
+    R.once(round12.err6_no_panic_on_a_fallible_result, P, R, L)
     # "after the fault is gone and the database is reopened, it contains every write that returned Ok": what a reopen restores
     K.bundle_recovery(P, R, L)
     R.not_decided += ["that a write which returned Err is all-or-nothing after reopen (runtime content)",
